@@ -246,11 +246,15 @@ def check_core_plumbing(ctx):
                 probs.append(f"argument {i} of V::unseal is {fmt_n(v)[:120]}, expected {fmt_n(wv)}")
     ctx.add("R02.7", "C02/R02.7/core-unseal", not probs, "; ".join(probs), site_of(g))
 
-def check_manifest_features(ctx):
-    # R02.9: dependency features that relax signature verification must not be enabled by any workspace manifest
+DENY_VERIFY = {("ed25519-dalek", "legacy_compatibility"): "ed25519-dalek accepts non-canonical signature scalars (s + l) when `legacy_compatibility` is on: a modified token verifies"}
+DENY_JSON = {("serde_json", "arbitrary_precision"): "serde_json represents numbers as a private map when `arbitrary_precision` is on: floats inside flattened / tagged payload types no longer decode",
+             ("serde_json", "unbounded_depth"): "removes serde_json's recursion limit: deeply nested unauthenticated JSON can exhaust the stack"}
+
+def check_manifest_features(ctx, DENY=None, rule="R02.9", key="C02/R02.9/manifest-features"):
+    # dependency features that change what is accepted / how data decodes must not be enabled by any workspace manifest
     import tomllib, glob as _glob, extract as _ex
     repo = getattr(ctx, "repo", None) or _ex.REPO
-    DENY = {("ed25519-dalek", "legacy_compatibility"): "ed25519-dalek accepts non-canonical signature scalars (s + l) when `legacy_compatibility` is on: a modified token verifies"}
+    DENY = DENY or DENY_VERIFY
     bad = []
     nman = 0
     for mf in sorted(_glob.glob(os.path.join(repo, "*", "Cargo.toml")) + [os.path.join(repo, "Cargo.toml")]):
@@ -280,7 +284,7 @@ def check_manifest_features(ctx):
         for (d, ft), why in DENY.items():
             if (d, ft) in enabled:
                 bad.append(f"{os.path.relpath(mf, repo)} enables {d}/{ft}: {why}")
-    ctx.add("R02.9", "C02/R02.9/manifest-features", nman >= 8 and not bad, "; ".join(bad) or ("" if nman >= 8 else f"only {nman} manifests found"), None, {"manifests": nman})
+    ctx.add(rule, key, nman >= 8 and not bad, "; ".join(bad) or ("" if nman >= 8 else f"only {nman} manifests found"), None, {"manifests": nman})
 
 def run(ctx):
     for be in BACKENDS:
